@@ -424,6 +424,10 @@ fn event_case(ctx: &mut Ctx, case: u64, rng: &mut Rng) {
     store.import_namespace(Capability::Write(uni.ns.clone())).unwrap();
     store.import_namespace(Capability::Write(other.clone())).unwrap();
     let entries = uni.entries(rng, 8, 3);
+    let via_message = rng.chance(1, 2);
+    if via_message {
+        ctx.count("event_flag_histories_with_one_reconciliation_message", 1);
+    }
     let rt = act::runtime(1);
     let res: Result<Option<String>, String> = rt.block_on(async {
         let h = act::spawn(store);
@@ -432,7 +436,27 @@ fn event_case(ctx: &mut Ctx, case: u64, rng: &mut Rng) {
         h.set_download_policy(uni.ns.id(), real(&p)).await.map_err(|e| e.to_string())?;
         h.set_download_policy(other.id(), real(&p_other)).await.map_err(|e| e.to_string())?;
         let mut bad = None;
-        for e in &entries {
+        // Half of the histories deliver all entries in ONE reconciliation message (added after seeded
+        // change agent-C15-10): the contents come from a pool of four, so a message carries the same
+        // content under keys the policy selects and keys it does not, next to values that are dropped
+        // on receipt because a newer one is in the same message. The flag of an event is decided by the
+        // policy and the key of *its* entry.
+        if via_message {
+            use crate::wire::{RawEntry, RawMessage, RawPart};
+            let zero = vec![0u8; 64];
+            let m = RawMessage { parts: vec![RawPart::Item { x: zero.clone(), y: zero, values: entries.iter().map(|e| (RawEntry::of(e), 0u8)).collect(), have_local: true }] };
+            let msg = m.into_message().map_err(|e| e.to_string())?;
+            let r = h.sync_process_message(uni.ns.id(), msg, [7u8; 32], iroh_docs::SyncOutcome::default()).await;
+            for ev in act::drain(&rx) {
+                if let Event::RemoteInsert { entry, should_download, .. } = ev {
+                    let want = spec_matches(&p, entry.key());
+                    if should_download != want {
+                        bad = Some(format!("key {} flag {} expected {} (entry of a reconciliation message with {} values, result {:?})", hex::encode(entry.key()), should_download, want, entries.len(), r.is_ok()));
+                    }
+                }
+            }
+        }
+        for e in entries.iter().filter(|_| !via_message) {
             let r = h.insert_remote(uni.ns.id(), e.clone(), [7u8; 32], ContentStatus::Complete).await;
             for ev in act::drain(&rx) {
                 if let Event::RemoteInsert { entry, should_download, .. } = ev {
